@@ -14,7 +14,13 @@ RULE = ("total sample counts n: every n in 2..24 (quick) / 2..60 (thorough) plus
         "(the recursion over ancestors is exercised); plus approximate tables (approx_prior_size 10, 100, 1000 in a private "
         "XDG_CACHE_HOME): rows from the cold (in-memory) and warm (cached) lookup table compared bit for bit; and 6 / 40 "
         "sequences of 6-9 add(n, approximate in {None, True, False}) calls on ONE object owning a table (n on both sides of "
-        "10000), every added table compared bit for bit with a fresh object's (exact path whenever it must be)")
+        "10000), every added table compared bit for bit with a fresh object's (exact path whenever it must be); and 25 / 200 "
+        "'tables stay exact under use' cases: MixturePrior on a small msprime tree sequence (some with missing samples => "
+        "several totals stored, some renumbered; lognorm/gamma; approximate off / size 20 / 100), all stored tables snapshotted, "
+        "then 4-8 random consumer calls on the same objects (create_timepoints, make_discretised_prior with int and array "
+        "timepoints, get_mixture_prior_params, add of the same / another n, mixture_expect_and_var, reads, make_parameter_grid, "
+        "clear + precalculate cache; one consumer repeated): after EVERY call every table must be bit-identical to its snapshot, "
+        "and at the end pass the exact-rational / moment-matching oracle")
 ASSUME = ["the Python exact-rational reference (closed-form level weights) is tied to the Coq model by an exact "
           "comparison with the model evaluated on Q inside Coq for small n on every run, and to the Kingman jump "
           "chain by C14_kingman_bounded (n <= 24) and by a Python re-enumeration (n <= 9) on every run",
@@ -288,6 +294,179 @@ def add_sequences(ctx, nseq):
             os.environ["XDG_CACHE_HOME"] = old
 
 
+# ------------------------------------------------------------------ tables stay exact under use
+USE_CALLS = ("create_timepoints", "grid_int", "grid_array", "mixture_params", "add_same", "add_other",
+             "mixture_moments", "read", "parameter_grid", "recache")
+
+
+def make_use_case(rng):
+    from vlib import gen
+    n = rng.choice([2, 3, 4, 5, 6, 8])
+    ts = gen.sim_ts(rng, n=n, historical=False)
+    if rng.random() < 0.35 and ts.sequence_length >= 5:
+        from props import c15
+        L = int(ts.sequence_length)
+        a = rng.randint(0, L - 2)
+        ts = c15.isolate(ts, [(rng.randrange(n), a, rng.randint(a + 1, L))])      # several totals T stored at once
+    if rng.random() < 0.3:
+        ts = gen.permute_nodes(rng, ts)
+    distr = rng.choice(["lognorm", "lognorm", "gamma"])
+    approx = rng.choice([None, None, 20, 100])
+    calls = []
+    for _ in range(rng.randint(3, 6)):
+        c = rng.choice(USE_CALLS)
+        if c == "create_timepoints":
+            calls.append([c, rng.choice([3, 5, 11, 21])])
+        elif c == "grid_int":
+            calls.append([c, rng.choice([2, 3, 10, 20])])
+        elif c == "grid_array":
+            calls.append([c, sorted({0.0} | {round(rng.random() * 10 ** rng.randint(0, 3), 3) + 0.001 for _ in range(rng.randint(2, 6))})])
+        elif c == "add_other":
+            calls.append([c, rng.choice([2, 3, 7, 12, 30, n + 1, n + 5])])
+        else:
+            calls.append([c, None])
+    if not any(c[0] in ("create_timepoints", "grid_int") for c in calls):
+        calls.insert(rng.randrange(len(calls) + 1), ["grid_int", rng.choice([2, 5, 20])])
+    # every consumer is called a SECOND time on the same object at the end
+    calls.append(list(rng.choice([c for c in calls if c[0] in ("create_timepoints", "grid_int", "grid_array", "mixture_params")]
+                                 or [["grid_int", 5]])))
+    return {"ts": gen.ts_tables_dict(ts), "distr": distr, "approx": approx, "calls": calls,
+            "pop": rng.choice([1.0, 0.5, 100.0])}, ts
+
+
+def run_use_case(ctx, case, ts=None):
+    """build the tables, snapshot them, run the consumer calls; returns True iff every stored table stayed
+    bit-identical after every call and still passes the exact-rational / moment-matching oracle"""
+    import os
+    import shutil
+    import logging
+    import numpy as np
+    import mpmath
+    import tsdate.prior as P
+    from vlib import gen
+    logging.getLogger().setLevel(logging.ERROR)
+    if ts is None:
+        ts = gen.ts_from_dict(case["ts"])
+    distr, approx = case["distr"], case["approx"]
+    d = os.path.join(ctx.work, "xdg_c14_use")
+    old = os.environ.get("XDG_CACHE_HOME")
+    shutil.rmtree(d, ignore_errors=True)
+    os.makedirs(d)
+    os.environ["XDG_CACHE_HOME"] = d
+    done = []
+    try:
+        with np.errstate(all="ignore"):
+            kw = {"prior_distribution": distr}
+            if approx:
+                kw.update(approximate_priors=True, approx_prior_size=approx)
+            mp = P.MixturePrior(ts, **kw)
+            base = mp.base_priors
+            snap = {n: np.array(t, copy=True) for n, t in base.prior_store.items()}
+            snap_params = np.array(mp.prior_params, copy=True)
+            snap_lookup = None if base.approx_priors is None else np.array(base.approx_priors, copy=True)
+
+            def unchanged():
+                for n, t0 in snap.items():
+                    t1 = base.prior_store.get(n)
+                    if t1 is None or t1.shape != t0.shape or not np.array_equal(t0, t1, equal_nan=True):
+                        if t1 is None or t1.shape != t0.shape:
+                            return "the table for n=%d disappeared or changed shape" % n, n
+                        k, col = [int(x[0]) for x in np.where(~((t0 == t1) | (np.isnan(t0) & np.isnan(t1))))]
+                        return ("prior_store[%d][%d] column %s was %r, is now %r" % (
+                            n, k, P.PriorParams._fields[col], float(t0[k, col]), float(t1[k, col]))), n
+                if not np.array_equal(snap_params, mp.prior_params, equal_nan=True):
+                    return "MixturePrior.prior_params changed", max(snap)
+                if snap_lookup is not None and not np.array_equal(snap_lookup, base.approx_priors):
+                    return "the in-memory lookup table approx_priors changed", max(snap)
+                return None
+
+            for name, arg in case["calls"]:
+                done.append([name, arg])
+                if name == "create_timepoints":
+                    P.create_timepoints(base, arg)
+                elif name == "grid_int":
+                    mp.make_discretised_prior(case["pop"], arg)
+                elif name == "grid_array":
+                    mp.make_discretised_prior(case["pop"], np.array(arg, dtype=float))
+                elif name == "mixture_params":
+                    contmpr, _map = __import__("tsdate").util.reduce_to_contemporaneous(ts)
+                    base.get_mixture_prior_params(P.SpansBySamples(contmpr))
+                elif name == "add_same":
+                    base.add(max(snap), bool(approx))
+                elif name == "add_other":
+                    if arg not in base.prior_store:
+                        base.add(arg, bool(approx))
+                        fresh = P.ConditionalCoalescentTimes(approx, distr)
+                        fresh.add(arg, bool(approx))
+                        if not np.array_equal(base[arg], fresh[arg], equal_nan=True):
+                            ctx.oracle_fail("table-after-use", "after %r the table added for n=%d differs from a fresh object's" % (done, arg),
+                                            dict(case, calls=done, n=arg))
+                            return False
+                        snap[arg] = np.array(base[arg], copy=True)
+                elif name == "mixture_moments":
+                    n0 = max(snap)
+                    if n0 >= 2:
+                        mix = {n0: np.array([(2, 3.0), (n0, 5.0)], dtype=[("descendant_tips", np.uint64), ("span", np.float64)])}
+                        base.mixture_expect_and_var(mix)
+                        base.mixture_expect_and_var(mix, weight_by_log_span=True)
+                elif name == "read":
+                    base.prior_with_max_total_tips()
+                    str(base)
+                    _ = base[max(snap)]
+                elif name == "parameter_grid":
+                    if distr == "gamma":
+                        mp.make_parameter_grid(case["pop"])
+                elif name == "recache":
+                    if approx:
+                        base.clear_precalculated_priors()
+                        base.precalculate_priors_for_approximation(approx)
+                bad = unchanged()
+                if bad is not None:
+                    ctx.oracle_fail("table-mutated", "%s prior tables (n_samples=%d%s): after the calls %r on the object: %s -- stored tables must stay "
+                                    "the exact moments and their moment-matched parameters whatever consumes them"
+                                    % (distr, ts.num_samples, ", approximate" if approx else "", done, bad[0]),
+                                    dict(case, calls=done, n=bad[1]))
+                    return False
+        # (b) the tables, after use, against the exact references
+        for n, t in base.prior_store.items():
+            rows = [[float(x) for x in r] for r in t]
+            if not approx:
+                if not oracle_n(ctx, n, None, {distr: rows}):
+                    return False
+            else:
+                with mpmath.workdps(50):
+                    for k in range(2, n + 1):
+                        al, be, mean, v = (mpmath.mpf(x) for x in rows[k])
+                        if distr == "gamma":
+                            pm, pv = al / be, al / (be * be)
+                        else:
+                            pm, pv = mpmath.exp(al + be / 2), (mpmath.exp(be) - 1) * mpmath.exp(2 * al + be)
+                        if not (abs(pm - mean) / mean <= TOL_MOM and abs(pv - v) / v <= TOL_MOM):
+                            ctx.oracle_fail("moment-match", "after %r: %s parameters of n=%d k=%d no longer match the stored mean/var"
+                                            % (done, distr, n, k), dict(case, calls=done, n=n))
+                            return False
+        return True
+    except Exception as e:
+        ctx.oracle_fail("exception", "tables-under-use %r raised %s: %s" % (done, type(e).__name__, str(e)[:200]), dict(case, calls=done, n=0))
+        return False
+    finally:
+        if old is None:
+            os.environ.pop("XDG_CACHE_HOME", None)
+        else:
+            os.environ["XDG_CACHE_HOME"] = old
+
+
+def tables_under_use(ctx, ncases):
+    for _ in range(ncases):
+        case, ts = make_use_case(ctx.rng)
+        ok = run_use_case(ctx, case, ts)
+        ctx.case({"tables-under-use": case["calls"], "distr": case["distr"], "approx": case["approx"],
+                  "samples": ts.num_samples, "trees": ts.num_trees}, nontrivial=True,
+                 kind="tables-under-use/" + case["distr"] + ("/approx" if case["approx"] else ""))
+        if not ok:
+            return
+
+
 def kingman_reference_check(ctx, nmax):
     """Python re-enumeration of the Kingman chain against the closed-form reference (exact)
     and against the implementation"""
@@ -336,6 +515,7 @@ def run(ctx, model_ok=True):
     kingman_reference_check(ctx, ctx.n(9, 11))
     approx_cold_warm(ctx, [10, 100, 1000])
     add_sequences(ctx, ctx.n(6, 40))
+    tables_under_use(ctx, ctx.n(25, 200))
     if not ctx.oracle_fails:
         for n, distrs in pick_big(ctx):
             if not oracle_big(ctx, n, distrs):
@@ -449,6 +629,8 @@ def replay(ctx, data):
     before = len(ctx.oracle_fails)
     if case.get("sequence"):
         return replay_sequence(ctx, case)
+    if case.get("calls"):
+        return bool(run_use_case(ctx, case)) and len(ctx.oracle_fails) == before
     n = int(case["n"])
     ds = [case["distr"]] if case.get("distr") else ["lognorm", "gamma"]
     if n > 450:
